@@ -239,6 +239,30 @@ def style_task(task):
     return acc
 
 
+def huge_task(task):
+    """ONE write call carrying 1 .. 3 MiB (about 1000 .. 3100 blocks), alone and after a short first write"""
+    from cardutil.mciipm import Block1014
+    acc = core.Acc()
+    n, first = task['size'], task['first']
+    base = pay('pos')
+    data = (base * (n // len(base) + 2))[:n + first]
+    case = {'huge': n, 'first': first, 'seed': _SEED}
+    acc.case(('huge', n, first), nontrivial=True, outcome='huge_write')
+    try:
+        f = CapIO()
+        b = Block1014(f)
+        if first:
+            b.write(data[:first])
+        b.write(data[first:])
+        why = judge(finalise(f, b, 'finalise'), data)
+    except BaseException as ex:      # RecursionError, MemoryError ... are verdicts here
+        why = 'exception %r' % ex
+    acc.transitions += 1
+    if why:
+        acc.viol('c04.huge_write', case, why, 'reference blocking of the %d bytes written' % len(data))
+    return acc
+
+
 HEADERS = [1, 6, 500, 1008, 1009, 1013, 1014, 1020, 2027]
 
 
@@ -292,6 +316,10 @@ def run(tier, seed):
     stop = 1100 if tier == 'quick' else 3100
     for a in core.pmap(style_task, [{'lo': lo, 'hi': min(lo + 25, stop + 1)} for lo in range(0, stop + 1, 25)][::4 if core.AXIS else 1]):
         acc.merge(a)
+    if not core.AXIS:
+        hs = [{'size': n, 'first': fst} for n in ((1 << 20), (1 << 20) + 1013, 1200000, 3 << 20) for fst in (0, 5)]
+        for a in core.pmap(huge_task, hs if tier == 'thorough' else hs[:6]):
+            acc.merge(a)
     residues = {k[1] for k in seen}
     caps = [acc.counters['bfs_cap_hit']] if 'bfs_cap_hit' in acc.counters else []
     if acc.counters.get('abstraction_mismatches'):
@@ -332,6 +360,8 @@ def replay_case(case):
         return a
     if 'header' in case:
         return header_task({'lo': case['len'], 'hi': case['len'] + 1})
+    if 'huge' in case:
+        return huge_task({'size': case['huge'], 'first': case['first']})
     if 'style' in case:
         return style_task({'lo': case['len'], 'hi': case['len'] + 1})
     hist = case['hist']
